@@ -337,7 +337,7 @@ func deref(v ssa.Value) ssa.Value {
 // Calls kill the field only when a module callee (static, or any module implementer of the invoked
 // interface method) may store to f; code outside the module cannot name fields of unexported types,
 // and for exported types an external call is a kill.
-func reachingFieldStore(p *Prog, ld *ssa.UnOp) *ssa.Store {
+func reachingFieldStoreE(p *Prog, ld *ssa.UnOp, entryOnly *bool) *ssa.Store {
 	fa, ok := ld.X.(*ssa.FieldAddr)
 	if !ok {
 		return nil
@@ -428,5 +428,36 @@ func reachingFieldStore(p *Prog, ld *ssa.UnOp) *ssa.Store {
 			best = c
 		}
 	}
+	if best == nil && entryOnly != nil {
+		// is the load still the value the field had on entry? no candidate store or kill may precede it
+		*entryOnly = true
+		for _, c := range cands {
+			if reachesBefore(c, ld) {
+				*entryOnly = false
+			}
+		}
+		for _, kl := range kills {
+			if reachesBefore(kl, ld) {
+				*entryOnly = false
+			}
+		}
+	}
 	return best
+}
+
+// reachesBefore: instruction a can execute before b on some path from the entry.
+func reachesBefore(a, b ssa.Instruction) bool {
+	if a == b {
+		return false
+	}
+	return reachableFrom(a, b)
+}
+
+func reachingFieldStore(p *Prog, ld *ssa.UnOp) *ssa.Store { return reachingFieldStoreE(p, ld, nil) }
+
+// fieldEntryValue: the load reads the value the field had when the function was entered.
+func fieldEntryValue(p *Prog, ld *ssa.UnOp) bool {
+	e := false
+	st := reachingFieldStoreE(p, ld, &e)
+	return st == nil && e
 }
